@@ -212,10 +212,36 @@ func fieldName(structT types.Type, idx int) string {
 	if !ok || idx >= st.NumFields() {
 		return fmt.Sprintf("f%d", idx)
 	}
+	if fieldTransparent[st.Field(idx)] {
+		return ""
+	}
 	if a, ok := fieldAlias[st.Field(idx)]; ok {
 		return a
 	}
 	return st.Field(idx).Name()
+}
+
+// dotField renders base.field; a field that only groups reviewed fields into a new nested struct is transparent.
+func dotField(base string, structT types.Type, idx int) string {
+	n := fieldName(structT, idx)
+	if n == "" {
+		return base
+	}
+	return base + "." + n
+}
+
+// fieldOwnerIs: the field number idx of structT is (in the reviewed layout) the field named field of the named type nt.
+func fieldOwnerIs(structT types.Type, idx int, nt *types.Named, field string) bool {
+	if fieldName(structT, idx) != field {
+		return false
+	}
+	if n := namedOf(structT); n != nil && n.Obj() == nt.Obj() {
+		return true
+	}
+	if st, ok := deref(structT).Underlying().(*types.Struct); ok && idx < st.NumFields() {
+		return fieldOwner[st.Field(idx)] == nt.Obj()
+	}
+	return false
 }
 
 // ---------------------------------------------------------------- expression rendering (backward slice as a term)
@@ -369,12 +395,12 @@ func (e *exprCtx) expr(v ssa.Value) string {
 				e.seen[a] = true
 				s := e.expr(st.Val)
 				delete(e.seen, a)
-				return s + "." + fieldName(x.X.Type(), x.Field)
+				return dotField(s, x.X.Type(), x.Field)
 			}
 		}
-		return e.expr(x.X) + "." + fieldName(x.X.Type(), x.Field)
+		return dotField(e.expr(x.X), x.X.Type(), x.Field)
 	case *ssa.Field:
-		return e.expr(x.X) + "." + fieldName(x.X.Type(), x.Field)
+		return dotField(e.expr(x.X), x.X.Type(), x.Field)
 	case *ssa.IndexAddr:
 		// x[:k][i] addresses x[i] (the reslice only narrows what may be indexed; bounds are the prover's business)
 		if sl, ok := x.X.(*ssa.Slice); ok && sl.Low == nil && sl.Max == nil {
@@ -1624,7 +1650,7 @@ func fieldAccesses(fns []*ssa.Function, nt *types.Named, field string) []Access 
 		eachInstr(fn, func(i ssa.Instruction) {
 			switch x := i.(type) {
 			case *ssa.FieldAddr:
-				if namedOf(x.X.Type()) == nil || namedOf(x.X.Type()).Obj() != nt.Obj() || fieldName(x.X.Type(), x.Field) != field {
+				if !fieldOwnerIs(x.X.Type(), x.Field, nt, field) {
 					return
 				}
 				refs := x.Referrers()
@@ -1650,7 +1676,7 @@ func fieldAccesses(fns []*ssa.Function, nt *types.Named, field string) []Access 
 					}
 				}
 			case *ssa.Field:
-				if namedOf(x.X.Type()) != nil && namedOf(x.X.Type()).Obj() == nt.Obj() && fieldName(x.X.Type(), x.Field) == field {
+				if fieldOwnerIs(x.X.Type(), x.Field, nt, field) {
 					out = append(out, Access{fn, x, "read", nil})
 				}
 			}
@@ -2642,7 +2668,7 @@ func (e *exprCtx) localField(fa *ssa.FieldAddr) (string, bool) {
 	s := e.expr(v)
 	delete(e.seen, fa)
 	for _, st := range path[1:] {
-		s += "." + fieldName(st.t, st.idx)
+		s = dotField(s, st.t, st.idx)
 	}
 	return s, true
 }
